@@ -119,10 +119,7 @@ var valuedOptions = map[string][]string{
 	"package_prefix":     {"example.com/pfx", "x/y"},
 }
 
-var skipOptions = map[string]bool{
-	// need extra input files or are about other tools
-	"code_ref": true, "code_ref_slim": true, "exp_code_ref": true, "keep_code_ref_name": true,
-}
+var skipOptions = map[string]bool{}
 
 // config is one backend/option configuration.
 type config struct {
@@ -216,6 +213,10 @@ type cmdCase struct {
 	Env     map[string]string
 	Second  *config // a second -g
 	Prelude [][]string // earlier invocations in the same process (argv each), see drv.runCmdWorld
+	// PreludeWd[i] != "": earlier invocation i is sdk.RunThriftgoAsSDK(PreludeWd[i], nil, argv[1:]...);
+	// SdkWd != "": the observed invocation is sdk.RunThriftgoAsSDK(SdkWd, nil, argv[1:]...) instead of main()
+	PreludeWd []string
+	SdkWd     string
 }
 
 type plugSpec struct {
@@ -269,8 +270,18 @@ func (c *cmdCase) spec(seed uint64) *simrt.Spec {
 	args = append(args, c.Extra...)
 	args = append(args, c.Prog.Main)
 	sp.Args = args
-	if len(c.Prelude) > 0 {
-		sp.Driver, _ = json.Marshal(map[string]interface{}{"prelude": c.Prelude})
+	if len(c.Prelude) > 0 || c.SdkWd != "" {
+		d := map[string]interface{}{}
+		if len(c.Prelude) > 0 {
+			d["prelude"] = c.Prelude
+		}
+		if len(c.PreludeWd) > 0 {
+			d["prelude_wd"] = c.PreludeWd
+		}
+		if c.SdkWd != "" {
+			d["sdk_wd"] = c.SdkWd
+		}
+		sp.Driver, _ = json.Marshal(d)
 	}
 	return sp
 }
